@@ -185,6 +185,43 @@ theorem C32_pending_cannot_hit_new (st : St) (sess k : Nat) (hinv : SubInv st)
   have e' : st.subCtr + 1 = id := e
   exact hpend (e' ▸ this)
 
+-- ---------------------------------------------------------------- the wrap of the two 32-bit counters
+
+/-- both counters use the same scheme: the successor never is 0 and stays a 32-bit number; it is
+    c+1 below the wrap, and after 2^32-1 comes 1 (0 is skipped) -/
+theorem C32_nextID_wrap :
+    (∀ c, nextID c ≠ 0 ∧ nextID c < 4294967296) ∧
+    (∀ c, c + 1 < 4294967296 → nextID c = c + 1) ∧
+    nextID 4294967295 = 1 ∧ nextID 4294967294 = 4294967295 := by
+  refine ⟨?_, fun c h => nextID_small c h, by decide, by decide⟩
+  intro c
+  unfold nextID
+  have hlt : (c + 1) % 4294967296 < 4294967296 := Nat.mod_lt _ (by decide)
+  by_cases h : (c + 1) % 4294967296 = 0
+  · simp [h]
+  · simp only [h, ↓reduceIte]; exact ⟨h, hlt⟩
+
+/-- the hypothesis "below the wrap" of the two freshness theorems is needed: once a counter has
+    gone round, the id it hands out can be one that is still in use (server alive for more than
+    2^32 subscriptions / monitored items — recorded as an assumption, not repaired) -/
+theorem C32_wrap_can_reuse_live_id :
+    -- subscriptions: counter at 2^32-1, subscription 1 still alive
+    (let st : St := { St.init 0 4294967295 with subs := [(1, ⟨1, 1, 1⟩)] }
+     SubInv st ∧ (createSub st 2).1 = .subId 1 ∧ 1 ∈ liveSubIds st) ∧
+    -- monitored items: counter at 2^32-1, item 1 still alive
+    (let st : St := { St.init 4294967295 5 with subs := [(5, ⟨1, 5, 1⟩)], items := [⟨1, ⟨1, 5, 1⟩, 0⟩] }
+     ItemInv st ∧ (createItems st 1 5 1).1 = .itemIds [1] ∧ 1 ∈ liveItemIds st) := by
+  refine ⟨⟨?_, by decide, by decide⟩, ⟨?_, by decide, by decide⟩⟩
+  · refine ⟨?_, ?_⟩
+    · intro id h
+      have : id = 1 := by simpa [liveSubIds, St.init] using h
+      subst this; simp [St.init]
+    · intro id h; simp [St.init] at h
+  · refine ⟨?_, by simp [St.init]⟩
+    intro it h
+    have : it = ⟨1, ⟨1, 5, 1⟩, 0⟩ := by simpa [St.init] using h
+    subst this; simp [St.init]
+
 -- ---------------------------------------------------------------- session scope
 
 /-- DeleteSubscriptions: the table and the items are not touched by the request
